@@ -200,3 +200,27 @@ Proof. exact piece_layers_exact. Qed.
 Print Assumptions C02_layers_exact.
 
 (* (the recorded layer has one hash per piece that contains data: C02_layer_omits_padding above) *)
+
+(* THE SOURCE'S OWN DECISIONS.  Gen/GenTraverse.v is regenerated from /repo/torrentfile/torrent.py on every run: the test that
+   guards the store into `self.piece_layers` and the test under which a leaf is returned without a root, in the `_traverse`
+   of each of the three v2-capable creators, translated as integer comparisons; and that directories are walked as
+   sorted(os.listdir(path)).  For EVERY file size and piece length they are the decisions of Model/Creators.v (and of BEP 52):
+   a layer entry exactly for files larger than one piece, no root exactly for empty files. *)
+From TF Require Import Gen.GenTraverse Proofs.TraverseInstance.
+Theorem C02_source_layer_rule : forall size pl : Z, 0 <= size -> 0 < pl ->
+  gen_layer_cond_TorrentFileV2 size pl = (pl <? size) /\
+  gen_layer_cond_TorrentFileHybrid size pl = (pl <? size) /\
+  gen_layer_cond_TorrentAssembler size pl = (pl <? size).
+Proof. exact gen_layer_rule. Qed.
+Print Assumptions C02_source_layer_rule.
+
+Theorem C02_source_rootless_rule : forall size pl : Z, 0 <= size -> 0 < pl ->
+  gen_rootless_cond_TorrentFileV2 size pl = (size =? 0) /\
+  gen_rootless_cond_TorrentFileHybrid size pl = (size =? 0) /\
+  gen_rootless_cond_TorrentAssembler size pl = (size =? 0).
+Proof. exact gen_rootless_rule. Qed.
+Print Assumptions C02_source_rootless_rule.
+
+Theorem C02_source_listing_sorted : gen_listing_sorted = true.
+Proof. exact gen_listing_is_sorted. Qed.
+Print Assumptions C02_source_listing_sorted.
